@@ -127,6 +127,18 @@ fn effect_rewritten(b: &[u8; WIN], off: usize, place: u64, rex_allowed: bool, go
             _ => Eff::Unknown,
         };
     }
+    if modrm & 0xc0 == 0x80 && op == 0x8d {
+        // 8D /r with mod=10: LEA r64, [base + disp32].  rm=100 would announce a SIB byte (the field's first byte
+        // would then be the SIB and the instruction one byte longer): not a form any linker emits here -> Unknown.
+        if rm == 4 {
+            return Eff::Unknown;
+        }
+        let dst = reg | ((r as u8) << 3);
+        let base = rm | ((bb as u8) << 3);
+        // `lea disp32(%reg), %reg` adds the displacement to the register (GNU ld's GOTTPOFF rewrite of `add`);
+        // it differs from ADD only in not setting flags, which the TLS code sequences do not rely on.
+        return if base == dst && w { Eff::Alu { op: 0, dst, operand: sext32(field) } } else { Eff::Unknown };
+    }
     if modrm & 0xc0 == 0xc0 {
         let dst = rm | ((bb as u8) << 3);
         let imm = if w { sext32(field) } else { field as u64 };
